@@ -577,6 +577,8 @@ bool TMCG_PublicKey::verify
 			throw false;
 		mpz_mul(foo, foo, foo); // apply Rabin's verification function
 		mpz_mod(foo, foo, m);
+		if (mpz_sizeinbase(foo, 2UL) > (mnsize * 8))
+			throw false; // not an encoding: only mnsize octets are parsed
 		size_t gsize = mnsize - mdsize - TMCG_PRAB_K0;
 		unsigned char *w = new unsigned char[mdsize];
 		unsigned char *r = new unsigned char[TMCG_PRAB_K0];
